@@ -24,10 +24,15 @@ Established(s) == /\ st[s] = "dialing" /\ s \in Live
 \* dial() returns an error: refused, handshake failed, not trusted
 Fail(s) == /\ st[s] = "dialing" /\ s \notin Live
            /\ st' = [st EXCEPT ![s] = "failed"] /\ slots' = (IF KF_FailKeepsSlot THEN slots ELSE slots - 1) /\ UNCHANGED contacted
-\* baseclient: after 2 s the connection is made again
-Again(s) == /\ Retry /\ st[s] = "failed"
+\* the session of an established connection ends (the server closed it, the network dropped it): Start() returns
+\* (the environment's step: no fairness)
+SessionEnd(s) == /\ st[s] = "up"
+                 /\ st' = [st EXCEPT ![s] = "ended"] /\ UNCHANGED <<slots, contacted>>
+\* baseclient.startConnection: in retry mode the connection is made again after 2 s - for the same server, whether the
+\* dial had failed or the session has ended; otherwise the server's goroutine is done
+Again(s) == /\ Retry /\ st[s] \in {"failed", "ended"}
             /\ st' = [st EXCEPT ![s] = "waiting"] /\ UNCHANGED <<slots, contacted>>
-Next == \E s \in Servers : Take(s) \/ Established(s) \/ Fail(s) \/ Again(s)
+Next == \E s \in Servers : Take(s) \/ Established(s) \/ Fail(s) \/ SessionEnd(s) \/ Again(s)
 \* Senders blocked on a Go channel are served in FIFO order: a server waiting for a slot gets one although slots are free
 \* only now and then (strong fairness of Take); the other steps are ordinary progress.
 Spec == Init /\ [][Next]_vars /\ \A s \in Servers : SF_vars(Take(s)) /\ WF_vars(Established(s)) /\ WF_vars(Fail(s)) /\ WF_vars(Again(s))
@@ -38,4 +43,8 @@ AtMostK == Cardinality(Dialing) <= K
 SlotsMatch == slots = Cardinality(Dialing)
 \* the throttle delays, it never excludes: every server that answers is contacted, however many others fail
 EveryLiveContacted == \A s \in Live : <>(s \in contacted)
+\* retry mode: a server whose session ended is connected again (it stays in the wanted set) ...
+ReconnectKeeps == Retry => \A s \in Live : [](st[s] = "ended" => <>(st[s] = "up"))
+\* ... and without retry nobody is dialled twice: the client is done when every server's connection is over
+NoRetryOnce == [][~Retry => \A s \in Servers : st[s] \in {"failed", "ended"} => st'[s] = st[s]]_vars
 ==============================================================================
